@@ -12,6 +12,7 @@ import (
 	"go/token"
 	"go/types"
 	"math/big"
+	"strings"
 
 	"golang.org/x/tools/go/ssa"
 
@@ -190,7 +191,7 @@ func init() {
 	register(&Rule{
 		Name:  "FLOW-accum",
 		Doc:   "an integer accumulator of the form acc = acc*K + d (K ≥ 2) carried round a loop is bounded inside the loop: a range test on the new value dominates the back edge (its failing arm leaves through a failure-flagged handler), or the loop has a constant trip count; otherwise a long enough run of digits wraps it around and the range test that follows the loop is meaningless",
-		Props: []string{"C08", "C01"},
+		Props: []string{"C08", "C01", "C07"},
 		Floor: 2,
 		Run: func(c *Ctx, s *core.Sink) {
 			n := map[string]int{}
@@ -200,6 +201,10 @@ func init() {
 					continue
 				}
 				ff := Facts(c, f)
+				ip := []string{"C08", "C01"}
+				if strings.Contains(core.FuncName(f), "IPv4") {
+					ip = []string{"C07", "C01"}
+				}
 				for _, l := range loops {
 					for _, ins := range l.Header.Instrs {
 						phi, ok := ins.(*ssa.Phi)
@@ -227,6 +232,27 @@ func init() {
 										x, k = m.Y, m.X
 									}
 									kv, isK := constInt(k)
+									if !isK && m.Op == token.MUL {
+										// a radix held in a variable (`number*int64(R) + digit`): whichever factor comes from the
+										// accumulator is the accumulator; the other is a factor the loop does not change
+										switch {
+										case derivesFromPhi(m.X, phi, l, 0) && !derivesFromPhi(m.Y, phi, l, 0):
+											x, k = m.X, m.Y
+										case derivesFromPhi(m.Y, phi, l, 0) && !derivesFromPhi(m.X, phi, l, 0):
+											x, k = m.Y, m.X
+										default:
+											continue
+										}
+										if _, _, isInt := intTypeInfo(k.Type()); !isInt {
+											continue
+										}
+										if in, isIns := stripConv(k).(ssa.Instruction); isIns && in.Block() != nil && l.Blocks[in.Block()] {
+											if _, isPhi := stripConv(k).(*ssa.Phi); !isPhi {
+												continue // computed inside the loop: not a radix
+											}
+										}
+										kv, isK = 2, true
+									}
 									if !isK || (m.Op == token.MUL && kv < 2) || (m.Op == token.SHL && kv < 1) {
 										continue
 									}
@@ -247,7 +273,7 @@ func init() {
 						key := fmt.Sprintf("%s#%d", base, n[base])
 						pos := c.P.Pos(updates[0].Pos())
 						if l.ConstBounded {
-							s.OK(key, pos, "constant trip count ("+l.BoundFacts+")")
+							s.OK(key, pos, "constant trip count ("+l.BoundFacts+")", ip...)
 							// what the accumulator can reach in that many rounds must fit wherever it is narrowed to
 							if t, ok := tripCount(l); ok {
 								K, uniform := int64(0), true
@@ -312,9 +338,9 @@ func init() {
 											lim.Sub(lim, big.NewInt(1))
 											nk := fmt.Sprintf("%s/narrow:%s", key, cv.Type().String())
 											if max.Cmp(lim) <= 0 {
-												s.OK(nk, c.P.Pos(cv.Pos()), fmt.Sprintf("at most %d rounds of ×%d: the value stays ≤ %s, which %s holds", t, K, max.String(), cv.Type().String()))
+												s.OK(nk, c.P.Pos(cv.Pos()), fmt.Sprintf("at most %d rounds of ×%d: the value stays ≤ %s, which %s holds", t, K, max.String(), cv.Type().String()), ip...)
 											} else {
-												s.Bad(nk, c.P.Pos(cv.Pos()), fmt.Sprintf("the loop runs up to %d rounds of ×%d, so the value can reach %s, but it is converted to %s (max %s): digits are silently lost", t, K, max.String(), cv.Type().String(), lim.String()))
+												s.Bad(nk, c.P.Pos(cv.Pos()), fmt.Sprintf("the loop runs up to %d rounds of ×%d, so the value can reach %s, but it is converted to %s (max %s): digits are silently lost", t, K, max.String(), cv.Type().String(), lim.String()), ip...)
 											}
 										}
 									}
@@ -364,7 +390,7 @@ func init() {
 								okAll = false
 							}
 						}
-						s.Check(okAll, key, pos, "a range test on the new value dominates every back edge of the loop", "the accumulator grows by a factor each iteration and nothing inside the loop bounds it (no range test on the new value before the back edge, no constant trip count): a long run of digits wraps it around")
+						s.Check(okAll, key, pos, "a range test on the new value dominates every back edge of the loop", "the accumulator grows by a factor each iteration and nothing inside the loop bounds it (no range test on the new value before the back edge, no constant trip count): a long run of digits wraps it around", ip...)
 					}
 				}
 			}
